@@ -110,6 +110,12 @@ def observer_hosts():
         [sb([bf('d/y', [])]), sb([q], args=[2])],
         [bf('a', [bf('d/e/z', [])]), bf('d/x', [q])],
         [sb([bf('d/e/z', [], mode='rb')]), sb([q], args=[2])],
+        # across a nested-subbuild boundary, both directions
+        [sb([sb([bf('d/y', [])], args=[2]), q])],
+        [sb([bf('d/y', []), sb([q], args=[2])])],
+        [bf('a', [sb([bf('d/e/z', [])], args=[2]), q])],
+        # an earlier record observed the directory before it existed
+        [sb([{'k': 'q', 'kind': 'is_dir', 'p': 'd'}], args=[3]), sb([bf('d/y', []), q])],
     ]
 
 
